@@ -3,7 +3,7 @@ every container->container transfer (incl. nested) + the broadcast clause (conta
 n*q) + composition drift over long chains."""
 from __future__ import annotations
 
-from .common import shard, run_cases, BASE_ASSUMPTIONS
+from .common import shard, run_cases, BASE_ASSUMPTIONS, repo_suite, repo_suite_job
 
 ID = 'C02'
 LEVEL = 'exploration'
@@ -28,12 +28,21 @@ def required_buckets(tier):
 
 
 def plan(tier, seed):
+    jobs = _plan(tier, seed)
+    if tier != 'quick' or False:
+        jobs = jobs + repo_suite_job()
+    return jobs
+
+
+def _plan(tier, seed):
     if tier == 'quick':
         return shard('history', 240, 10) + shard('chain', 120, 6)
     return shard('history', 5000, 32, big=True) + shard('chain', 3000, 16)
 
 
 def run_job(job):
+    if job['kind'] == 'repo_suite':
+        return run_cases(job, repo_suite)
     return run_cases(job, history if job['kind'] == 'history' else chain)
 
 
